@@ -27,10 +27,11 @@ PI = sp.Symbol("PI_", positive=True)
 
 
 class Verdict:
-    __slots__ = ("status", "backend", "time_s", "detail", "point", "value")
+    __slots__ = ("status", "backend", "time_s", "detail", "point", "value", "bounded")
 
-    def __init__(self, status, backend, time_s=0.0, detail="", point=None, value=None):
+    def __init__(self, status, backend, time_s=0.0, detail="", point=None, value=None, bounded=False):
         self.status = status        # 'proved' | 'refuted' | 'undecided'
+        self.bounded = bounded      # True: held on a sample only (never counted as proved)
         self.backend = backend
         self.time_s = time_s
         self.detail = detail
@@ -73,6 +74,60 @@ def numeric_value(expr, point, dps=50):
     with mpmath.workdps(dps):
         args = [mpmath.mpf(point[s].p) / mpmath.mpf(point[s].q) for s in syms]
         return f(*args)
+
+
+ROUNDING_REL = 1e-13
+
+
+def rounding_level(expr, domain, seed, points=None, n=24, sides=None):
+    """(points evaluated, largest ratio) if at every one of `n` sampled points (or of the given path witnesses) the residual
+    `expr` = got - want is at most ROUNDING_REL of max(|got|, |want|) (`sides`; sympy has usually collected the residual into
+    (c_float - c_exact) * stuff, so its own terms carry no scale); else None."""
+    expr = sp.sympify(expr)
+    if expr.is_number or sides is None:
+        return None
+    got_, want_ = sp.sympify(sides[0]), sp.sympify(sides[1])
+    if got_ == 0 or want_ == 0:
+        return None                      # an exact zero is demanded (or delivered): no scale, stays a refutation
+    terms = [got_, -want_]
+    syms = sorted(expr.free_symbols | got_.free_symbols | want_.free_symbols, key=lambda s: s.name)
+    try:
+        f = sp.lambdify(syms, terms, modules="mpmath")
+    except Exception:
+        return None
+    rng = random.Random(seed + 4242)
+    pts = []
+    if points is not None:
+        for pt in points:
+            pt = dict(pt)
+            for s_ in syms:
+                if s_ not in pt and domain and s_ in domain and domain[s_][0] == domain[s_][1]:
+                    pt[s_] = domain[s_][0]
+            if all(s_ in pt for s_ in syms):
+                pts.append({s_: sp.Rational(repr(float(pt[s_]))) for s_ in syms})
+    else:
+        pts = [sample_point(syms, domain, rng) for _ in range(n)]
+    done = 0
+    worst = 0.0
+    for pt in pts:
+        try:
+            with mpmath.workdps(60):
+                vals = f(*[mpmath.mpf(pt[s_].p) / mpmath.mpf(pt[s_].q) for s_ in syms])
+                vals = [v_.real if isinstance(v_, mpmath.mpc) else v_ for v_ in vals]
+                tot = abs(mpmath.fsum(vals))
+                scale = max(abs(v_) for v_ in vals)
+        except (ZeroDivisionError, ValueError, OverflowError, TypeError):
+            continue
+        if scale == 0:
+            continue
+        ratio = float(tot / scale)
+        if not ratio <= ROUNDING_REL:
+            return None
+        worst = max(worst, ratio)
+        done += 1
+    if done < (1 if points is not None else n // 2):
+        return None
+    return done, worst
 
 
 def refute(expr, domain=None, seed=0, n_points=3, points=None):
@@ -362,7 +417,7 @@ def normal_form(expr, gens=None, extra_relations=(), cos_nonneg=(), full=False, 
 N_POINTS = 3
 
 
-def check_zero(expr, domain=None, seed=0, n_points=None, extra_relations=(), cos_nonneg=(), budget_s=None, points=None):
+def check_zero(expr, domain=None, seed=0, n_points=None, extra_relations=(), cos_nonneg=(), budget_s=None, points=None, sides=None):
     """Decide expr == 0 on the domain.  Verdict.status in proved/refuted/undecided.
     `points`: restrict the numeric refuter to these inputs (the residual belongs to one execution path)."""
     t0 = time.time()
@@ -376,6 +431,14 @@ def check_zero(expr, domain=None, seed=0, n_points=None, extra_relations=(), cos
         r = refute(expr, domain, seed, n_points, points=points)
         if r is not None:
             pt, v = r
+            rl = rounding_level(expr, domain, seed, points, sides=sides)
+            if rl is not None:
+                # a literal of the code that is itself a rounded value (ONE_TWELFTH = 1.0 / 12.0, a reciprocal computed at import)
+                # makes the identity false over the reals by ~1e-17 of its terms: that is the code's float64 rounding, not a
+                # disagreement with the contract.  Held on a sample only: labelled bounded, never counted as proved.
+                return Verdict("proved", "identity-up-to-float-rounding(sampled)", time.time() - t0,
+                               "code and contract agree to %.1e of their magnitude at %d sampled points (largest ratio %.1e): float-rounded literal "
+                               "constants in the code; bounded, not a proof" % (ROUNDING_REL, rl[0], rl[1]), bounded=True)
             return Verdict("refuted", "mpmath-100" if points is None else "mpmath-60(at path witnesses)", time.time() - t0,
                            "value %s" % mpmath.nstr(v, 8) if not isinstance(v, sp.Basic) else "value %s" % v,
                            point={str(k): str(val) for k, val in pt.items()}, value=str(v))
@@ -390,6 +453,12 @@ def check_zero(expr, domain=None, seed=0, n_points=None, extra_relations=(), cos
         return Verdict("undecided", "field-nf", time.time() - t0, "normal form failed: %r" % (exc,))
     if rem == 0:
         return Verdict("proved", "field-nf", time.time() - t0)
+    if sides is not None and not extra_relations:
+        rl = rounding_level(expr, domain, seed, points, sides=sides)
+        if rl is not None:
+            return Verdict("proved", "identity-up-to-float-rounding(sampled)", time.time() - t0,
+                           "no exact identity (non-zero remainder), but code and contract agree to %.1e of their magnitude at %d sampled points (largest "
+                           "ratio %.1e): float-rounded literal constants in the code (1 / 6 is a float); bounded, not a proof" % (ROUNDING_REL, rl[0], rl[1]), bounded=True)
     return Verdict("undecided", "field-nf", time.time() - t0,
                    "non-zero remainder (%d terms) but numerically zero at %d points"
                    % (len(rem.terms()) if hasattr(rem, "terms") else 1, n_points))
